@@ -27,10 +27,10 @@ BASE = [
     B('uint16', ['0', '1', '65535', '513']),
     B('uint64', ['0', '1', '1<<63', '^uint64(0)']),
     B('uintptr', ['0', '1', '0xdeadbeef']),
-    B('float32', ['0', '1.5', '-2.25', '3.4e38']),
-    B('float64', ['0', '1.5', '-2.25', '1.7e308', '5e-324']),
-    B('complex64', ['0', 'complex(1, 2)', 'complex(-3.5, 4)']),
-    B('complex128', ['0', 'complex(1, 2)', 'complex(-3.5, 4e100)']),
+    B('float32', ['0', '1.5', 'float32(math.Copysign(0, -1))', '-2.25', '3.4e38', '0']),
+    B('float64', ['0', 'math.Copysign(0, -1)', '1.5', '-2.25', '1.7e308', '5e-324', '0']),
+    B('complex64', ['0', 'complex(float32(math.Copysign(0, -1)), 0)', 'complex(1, 2)', 'complex(-3.5, 4)']),
+    B('complex128', ['0', 'complex(0, math.Copysign(0, -1))', 'complex(1, 2)', 'complex(-3.5, 4e100)']),
     B('string', ['""', '"a"', '"h\\u00e9llo"', '"a longer string value 0123456789"']),
     B('[]byte', ['nil', '[]byte{}', '[]byte{1, 2, 3}', '[]byte("xyz")'], canon='[]uint8'),
     B('[]int', ['nil', '[]int{1}', '[]int{1, 2, 3}']),
@@ -41,14 +41,14 @@ BASE = [
     B('*int', ['nil', 'pInt1', 'pInt2']),
     B('*string', ['nil', 'pStr1', 'pStr2']),
     B('map[string]int', ['nil', 'm1', 'm2']),
-    B('any', ['nil', '1', '"s"', '2.5', 'pInt1', '[2]int{1, 2}'], canon='interface {}'),
+    B('any', ['nil', '1', '"s"', '2.5', 'pInt1', '[2]int{1, 2}', '[]int{7}', '[]int{8, 9}', 'map[string]int{"z": 1}', 'map[string]int{"y": 2}'], canon='interface {}'),
     B('error', ['nil', 'errA', 'io.EOF']),
     B('fmt.Stringer', ['nil', 'strImpl("a")', 'strImpl("bb")']),
     B('chan int', ['nil', 'ch1', 'ch2']),
     B('MyStr', ['MyStr("")', 'MyStr("q")', 'MyStr("named")'], canon='main.MyStr'),
     B('MyInt', ['MyInt(0)', 'MyInt(-7)', 'MyInt(1 << 30)'], canon='main.MyInt'),
     B('MyBytes', ['MyBytes(nil)', 'MyBytes{9, 8}', 'MyBytes("ab")'], canon='main.MyBytes'),
-    B('MyF', ['MyF(0)', 'MyF(2.5)', 'MyF(-1e9)'], canon='main.MyF'),
+    B('MyF', ['MyF(0)', 'MyF(math.Copysign(0, -1))', 'MyF(2.5)', 'MyF(-1e9)'], canon='main.MyF'),
     B('MyI8', ['MyI8(0)', 'MyI8(-128)', 'MyI8(127)'], canon='main.MyI8'),
     # two packages with the same package name declaring a type of the same name: reflect's String() is "x.Str" for both
     B('xa.Str', ['xa.Str("")', 'xa.Str("pa")', 'xa.Str("from package a")'], canon='optgen/sa/x.Str'),
@@ -228,6 +228,7 @@ import (
 	"errors"
 	"fmt"
 	"io"
+	"math"
 	"reflect"
 	"unsafe"
 
@@ -244,6 +245,7 @@ import (
 var (
 	_ = errors.New
 	_ = io.EOF
+	_ = math.Copysign
 	_ = fmt.Sprint
 	_ = reflect.TypeOf
 	_ unsafe.Pointer
@@ -370,9 +372,49 @@ func off[S any, F any](s *S, f *F) uintptr { return uintptr(unsafe.Pointer(f)) -
             self.decls.append('const decl_%s = %s' % (st.name, q(self.decl_with_deps(st))))
             self.gen_c03(st, L)
             self.gen_c01(st, L)
+            self.gen_by_entry(st, L)
             self.gen_c02(st, L)
             self.gen_c04(st, L)
         # structs used only as dependencies still need decl consts? no: decl_ is referenced only for roots
+
+    def gen_static(self):
+        """hand-written corpus: two container types that print alike (x.Box from two packages named x)"""
+        def optic(S, T, field, get, put):
+            return ('rt.Optic[%s]{Prop: "C01", C: c, Kind: "lens",\n\t\tGet: func(s *%s) any { return %s },\n\t\tPut: func(s *%s, v any) *%s { return %s },\n'
+                    '\t\tRead: func(s *%s) any { return s.%s },\n\t\tWrite: func(s *%s, v any) { s.%s = unbox[%s](v) },\n'
+                    '\t\tRegions: func(s *%s) []rt.Region { return []rt.Region{{Off: off(s, &s.%s), Size: unsafe.Sizeof(s.%s)}} },\n'
+                    '\t\tFill: func(s *%s, k int) { s.Note = fmt.Sprint("note", k); s.N = 100 + k }, Vals: %s}') % (
+                S, S, get, S, S, put, S, field, S, field, T, S, field, field, S, 'box(pool_%s())' % BYGO[T].tid)
+        self.out = self.bufs.setdefault('C01', [])
+        self.fns = self.fnsby.setdefault('C01', [])
+        self.fns.append('case_static_lookalike')
+        self.w('const decl_static = "package sa/x: type Box struct { Note string; N int }\\npackage sb/x: type Box struct { Pad [3]int64; Note string; Flag bool; N int }"')
+        self.w('func case_static_lookalike() {')
+        self.w('\tc := rt.Case{ID: "C01-static-lookalike", Site: "lookalike-containers", Struct: "xa.Box, xb.Box", Req: "ForSpectrum1/ForProduct1 for two container types that both print as x.Box, derived one after the other", Expect: "each optic focuses its own container", Decl: decl_static}')
+        self.w('\tif !rt.Want("C01", c.ID) || !rt.Begin(c) {\n\t\treturn\n\t}')
+        self.w('\tvar ra, rb optics.Reflector[string]\n\tvar na, nb optics.Reflector[int]\n\tvar la optics.Lens[xa.Box, string]\n\tvar lb optics.Lens[xb.Box, string]')
+        self.w('\tif pn, msg := rt.Derive(func() {\n\t\tra = optics.ForSpectrum1[xa.Box, string]("Note")\n\t\trb = optics.ForSpectrum1[xb.Box, string]("Note")\n\t\tnb = optics.ForSpectrum1[xb.Box, int]("N")\n\t\tna = optics.ForSpectrum1[xa.Box, int]("N")\n\t\tla = optics.ForProduct1[xa.Box, string]("Note")\n\t\tlb = optics.ForProduct1[xb.Box, string]("Note")\n\t}); pn {\n\t\trt.Refused("C01", c, msg)\n\t\trt.End(c, "static", true)\n\t\treturn\n\t}')
+        self.w('\trt.CheckOptic(%s)' % optic('xa.Box', 'string', 'Note', 'ra.Gett(s)', 'unbox[*xa.Box](ra.Putt(s, unbox[string](v)))'))
+        self.w('\trt.CheckOptic(%s)' % optic('xb.Box', 'string', 'Note', 'rb.Gett(s)', 'unbox[*xb.Box](rb.Putt(s, unbox[string](v)))'))
+        self.w('\trt.CheckOptic(%s)' % optic('xa.Box', 'int', 'N', 'na.Gett(s)', 'unbox[*xa.Box](na.Putt(s, unbox[int](v)))'))
+        self.w('\trt.CheckOptic(%s)' % optic('xb.Box', 'int', 'N', 'nb.Gett(s)', 'unbox[*xb.Box](nb.Putt(s, unbox[int](v)))'))
+        self.w('\trt.CheckOptic(%s)' % optic('xa.Box', 'string', 'Note', 'la.Get(s)', 'la.Put(s, unbox[string](v))'))
+        self.w('\trt.CheckOptic(%s)' % optic('xb.Box', 'string', 'Note', 'lb.Get(s)', 'lb.Put(s, unbox[string](v))'))
+        self.w('\trt.End(c, "C01/static/lookalike", true)\n}\n')
+        # C02: the reflector of one Box handed a pointer to the other Box
+        self.out = self.bufs.setdefault('C02', [])
+        self.fns = self.fnsby.setdefault('C02', [])
+        self.fns.append('case_static_foreign')
+        self.w('func case_static_foreign() {')
+        self.w('\tc := rt.Case{ID: "C02-static-foreign", Site: "lookalike-containers/wrong-argument", Struct: "xa.Box, xb.Box", Req: "Reflector of xb.Box handed *xa.Box (and the reverse)", Expect: "panic, nothing modified"}')
+        self.w('\tif !rt.Want("C02", c.ID) || !rt.Begin(c) {\n\t\treturn\n\t}')
+        self.w('\tra := optics.ForSpectrum1[xa.Box, string]("Note")\n\trb := optics.ForSpectrum1[xb.Box, string]("Note")')
+        self.w('\ta := &xa.Box{Note: "a", N: 1}\n\tb := &xb.Box{Note: "b", N: 2}')
+        self.w('\trt.WrongArg("C02", c, "xb.Box reflector: Gett(*xa.Box)", unsafe.Pointer(a), unsafe.Sizeof(*a), func() { rb.Gett(a) })')
+        self.w('\trt.WrongArg("C02", c, "xb.Box reflector: Putt(*xa.Box)", unsafe.Pointer(a), unsafe.Sizeof(*a), func() { rb.Putt(a, "hijacked") })')
+        self.w('\trt.WrongArg("C02", c, "xa.Box reflector: Gett(*xb.Box)", unsafe.Pointer(b), unsafe.Sizeof(*b), func() { ra.Gett(b) })')
+        self.w('\trt.WrongArg("C02", c, "xa.Box reflector: Putt(*xb.Box)", unsafe.Pointer(b), unsafe.Sizeof(*b), func() { ra.Putt(b, "hijacked") })')
+        self.w('\trt.End(c, "C02/static/foreign", true)\n}\n')
 
     def decl_with_deps(self, st):
         seen, out = set(), []
@@ -527,6 +569,36 @@ func off[S any, F any](s *S, f *F) uintptr { return uintptr(unsafe.Pointer(f)) -
                         get, put = 'l%d.Gett(s)' % i, 'unbox[*%s](l%d.Putt(s, unbox[%s](v)))' % (S, i, T)
                     self.w('\trt.CheckOptic(%s)' % self.optic_lit('C01', st, e, get, put))
                 self.case_end('C01/%s/%s' % (S, req), True)
+
+    def gen_by_entry(self, st, L):
+        """NewLens / NewReflector applied to the i-th entry of the unfolding focus that very entry — also for
+        shadowed entries (same key as an earlier one) that no by-name request can reach"""
+        S = st.name
+        r = self.r
+        idxs = [i for i, e in enumerate(L) if not e.crossing]
+        shadowed = [i for i in idxs if self.resolve_name(L, L[i].key()) is not L[i]]
+        others = [i for i in idxs if i not in shadowed]
+        r.shuffle(others)
+        for i in shadowed[:6] + others[:3]:
+            e = L[i]
+            T = e.gotype()
+            req = 'NewLens/NewReflector[%s, %s](hseq.New[%s]()[%d])' % (S, T.replace('\n', ' '), S, i)
+            self.case_begin('C01', 'by-entry', st, req, 'focus ' + e.sel())
+            self.w('\tvar l optics.Lens[%s, %s]\n\tvar rf optics.Reflector[%s]' % (S, T, T))
+            self.w('\tif pn, msg := rt.Derive(func() {\n\t\tseq := hseq.New[%s]()\n\t\tl = optics.NewLens[%s, %s](seq[%d])\n\t\trf = optics.NewReflector[%s, %s](seq[%d])\n\t}); pn {\n\t\trt.Refused("C01", c, msg)\n\t\trt.End(c, %s, true)\n\t\treturn\n\t}' % (S, S, T, i, S, T, i, q(req)))
+            self.w('\trt.CheckOptic(%s)' % self.optic_lit('C01', st, e, 'l.Get(s)', 'l.Put(s, unbox[%s](v))' % T))
+            self.w('\trt.CheckOptic(%s)' % self.optic_lit('C01', st, e, 'rf.Gett(s)', 'unbox[*%s](rf.Putt(s, unbox[%s](v)))' % (S, T)))
+            self.case_end('C01/%s/%s' % (S, req), True)
+        crossing = [i for i, e in enumerate(L) if e.crossing]
+        r.shuffle(crossing)
+        for i in crossing[:3]:
+            e = L[i]
+            T = e.gotype()
+            req = 'NewLens[%s, %s](hseq.New[%s]()[%d])' % (S, T.replace('\n', ' '), S, i)
+            self.case_begin('C02', 'by-entry/must-fail', st, req, 'panic: entry %s is reached through an embedded pointer' % e.sel())
+            self.w('\tif pn, _ := rt.Derive(func() { _ = optics.NewLens[%s, %s](hseq.New[%s]()[%d]) }); !pn {\n\t\trt.Accepted("C02", c, "entry is reached through an embedded pointer")\n\t}' % (S, T, S, i))
+            self.w('\tif pn, _ := rt.Derive(func() { _ = optics.NewReflector[%s, %s](hseq.New[%s]()[%d]) }); !pn {\n\t\trt.Accepted("C02", c, "entry is reached through an embedded pointer (reflector)")\n\t}' % (S, T, S, i))
+            self.case_end('C02/%s/%s' % (S, req), True)
 
     # -------- C02: derivations that must fail, wrong dynamic arguments
     def gen_c02(self, st, L):
@@ -843,6 +915,7 @@ func off[S any, F any](s *S, f *F) uintptr { return uintptr(unsafe.Pointer(f)) -
         self.pending_types, self.decls = [], []
         self.bufs, self.fnsby = {}, {}
         self.gen_cases()
+        self.gen_static()
         srcs = {}
         for prop in ('C01', 'C02', 'C03', 'C04'):
             self.out = []
